@@ -48,7 +48,9 @@ OutpointTok(plainhex) == Cat(<< <<"f", "txid">>, <<"u32", plainhex>> >>)   \* fl
 EntropyNew(plainhex)  == Mid(<<"sha256d", OutpointTok(plainhex)>>, <<"f", "entropy">>)  \* contract hash field
 Entropy(i, plainhex)  == IF i.nonce = "zero" THEN EntropyNew(plainhex) ELSE <<"f", "entropy">>
 AssetId(i, ph)  == Mid(Entropy(i, ph), <<"z32">>)
-TokenId(i, ph)  == Mid(Entropy(i, ph), IF i.amount = "conf" THEN <<"c32", 2>> ELSE <<"c32", 1>>)
+\* "both": a PSET input that holds the explicit amount and its commitment (what a blinder leaves behind): the issuance is blinded
+IsConf(a) == a \in {"conf", "both"}
+TokenId(i, ph)  == Mid(Entropy(i, ph), IF IsConf(i.amount) THEN <<"c32", 2>> ELSE <<"c32", 1>>)
 Ids(i, ph)      == << AssetId(i, ph), TokenId(i, ph) >>
 
 \* The one corner of the PSET format where the stored index is ambiguous: index 2^30-1 of a
@@ -71,12 +73,21 @@ ToPset  == /\ rep = "txin" /\ rep' = "pset"
 Extract == /\ rep = "pset" /\ rep' = "extracted"
            /\ idx' = PlainOfStoredHex(idx)
            /\ UNCHANGED <<inp, ids0>>
-Next == ToPset \/ Extract
+\* a blinder commits the issuance amount in the PSET and keeps the explicit field next to it: from here on the
+\* issuance is a blinded one (the token id changes with it, by definition), and extraction emits the commitment
+AddCommitment == /\ rep = "pset" /\ inp.amount = "expl"
+                 /\ inp' = [inp EXCEPT !.amount = "both"]
+                 /\ ids0' = Ids(inp', PlainHex(inp.base))
+                 /\ UNCHANGED <<rep, idx>>
+Next == ToPset \/ AddCommitment \/ Extract
 Spec == Init /\ [][Next]_vars
 
 \* C11: the same pair of ids in every representation (ids always derive from the plain index)
 SameIds == Ids(inp, PlainOfStoredHex(idx)) = ids0
 RoundTrip == rep = "extracted" => idx = PlainHex(inp.base)
+\* what extraction emits for the amount: the commitment whenever one is present
+ExtractedAmount(a) == IF a = "both" THEN "conf" ELSE a
+ExtractKeepsBlinding == IsConf(ExtractedAmount(inp.amount)) <=> IsConf(inp.amount)
 \* new issuance and reissuance never coincide; asset and token ids differ
 Distinct == /\ AssetId(inp, PlainOfStoredHex(idx)) # TokenId(inp, PlainOfStoredHex(idx))
             /\ \A j \in Inputs : (j.nonce # inp.nonce) => Ids(j, PlainHex(j.base)) # Ids(inp, PlainHex(inp.base))
